@@ -24,7 +24,7 @@ def program(rng, final_ei=True):
             else: out += [rng.choice([0x00, 0x07, 0x17, 0x2F, 0x37, 0xEB, 0xD9, 0x08])]
         return out
     code += body(6)
-    if final_ei and rng.chance(2, 3):
+    if rng.chance(2, 3):
         # a closed DI .. EI section, usually containing a block instruction with several repetitions
         inner = body(2)
         if rng.chance(2, 3):
@@ -51,7 +51,8 @@ def gen(rng, tier):
         mem_noei = program(rng, final_ei=False)   # for NMI: nothing re-enables interrupts after the first EI
         for name, kind, data in KINDS:
             mem = mem_noei if (name == "nmi" and rng.chance(1, 2)) else mem_ei
-            st = programs.start_state(rng, iff=1, im={"im1": 1, "im2": 2, "nmi": rng.choice([0, 1, 2])}.get(name, 0))
+            # started with interrupts disabled half of the time: the program's first EI is then the only enable
+            st = programs.start_state(rng, iff=rng.below(2), im={"im1": 1, "im2": 2, "nmi": rng.choice([0, 1, 2])}.get(name, 0))
             cid = "j%d" % k; k += 1
             base = pipeline.step_line(cid, st, mem=sorted(mem.items()), fill=0x76, nsteps=0, inputs=[rng.below(256) for _ in range(4)])
             lines.append("inject " + base.split(" ", 1)[1] + " %d %d %s 3000" % (kind, len(data), " ".join(map(str, data))))
